@@ -134,17 +134,14 @@ Lemma encode_decode_dp v : 0 <= v < 2 ^ 64 -> (fld_e 11 52 v = 2047 -> fld_m 11 
   FPH_to_ieee754 fph_dp (FPH_from_ieee754 fph_dp v) = v.
 Proof. intros Hv Hn. rewrite (proj2 fphs_std). apply encode_decode; first [lia | exact Hn | left; reflexivity]. Qed.
 
-Lemma encode_decode_sp v : 0 <= v < 2 ^ 32 -> (fld_e 8 23 v = 255 -> fld_m 8 23 v = 0) -> v <> 2 ^ 31 ->
+Lemma encode_decode_sp v : 0 <= v < 2 ^ 32 -> (fld_e 8 23 v = 255 -> fld_m 8 23 v = 0) ->
   FPH_to_ieee754 fph_sp (FPH_from_ieee754 fph_sp v) = v.
-Proof. intros Hv Hn Hz. unfold fph_sp. rewrite (proj1 fphs_std false). apply encode_decode; first [lia | exact Hn | right; exact Hz]. Qed.
+Proof. intros Hv Hn. unfold fph_sp. rewrite (proj1 fphs_std true). apply encode_decode; first [lia | exact Hn | left; reflexivity]. Qed.
 
-Lemma encode_decode_sp_fixed v : 0 <= v < 2 ^ 32 -> (fld_e 8 23 v = 255 -> fld_m 8 23 v = 0) ->
-  FPH_to_ieee754 (fph_sp_with true) (FPH_from_ieee754 (fph_sp_with true) v) = v.
-Proof. intros Hv Hn. rewrite (proj1 fphs_std true). apply encode_decode; first [lia | exact Hn | left; reflexivity]. Qed.
-
-(* finding #16 *)
-Lemma encode_sp_neg_zero : FPH_to_ieee754 fph_sp (PFin true 0 0) = 0 /\ FPH_to_ieee754 fph_dp (PFin true 0 0) = 2 ^ 63 /\
-                           FPH_from_ieee754 fph_sp (2 ^ 31) = PFin true 0 0.
+(* HISTORY (finding #16, repaired by 8d56487): sp_to_ieee754_parts returned (0,0,0) for every zero: -0.0 encoded as 0 *)
+Lemma encode_sp_neg_zero_before :
+  FPH_to_ieee754 fph_sp_before_8d56487 (PFin true 0 0) = 0 /\ FPH_to_ieee754 fph_sp (PFin true 0 0) = 2 ^ 31 /\
+  FPH_from_ieee754 fph_sp (2 ^ 31) = PFin true 0 0.
 Proof. vm_compute. repeat split. Qed.
 
 (* ------------------------------------------------------------------ representation independence: any (n, d) with the same value *)
@@ -243,5 +240,5 @@ Proof. intros. rewrite (proj2 fphs_std). apply encode_exact; first [lia | assump
 
 Lemma encode_exact_sp x v : 0 <= v < 2 ^ 32 ->
   match x with PNaN => False | PInf _ => True | PFin _ n _ => 0 <= n end ->
-  xeq (pf_value x) (ieee_value 8 23 v) -> pf_neg x = ieee_neg 8 23 v -> v <> 2 ^ 31 -> FPH_to_ieee754 fph_sp x = v.
-Proof. intros. unfold fph_sp. rewrite (proj1 fphs_std false). apply encode_exact; first [lia | assumption | right; assumption]. Qed.
+  xeq (pf_value x) (ieee_value 8 23 v) -> pf_neg x = ieee_neg 8 23 v -> FPH_to_ieee754 fph_sp x = v.
+Proof. intros. unfold fph_sp. rewrite (proj1 fphs_std true). apply encode_exact; first [lia | assumption | left; reflexivity]. Qed.
